@@ -24,7 +24,9 @@ from engine import tlc
 from harness.c05 import parse_action
 
 SPEC = os.path.join(tlc.SPEC_DIR, 'Dims.tla')
-INVS = ['TypeOK', 'Isolation', 'FetchCarriesKey']
+INVS = ['TypeOK', 'Isolation', 'FetchCarriesKey', 'CapsListTheDimension']
+CAPS = {'wms111': '/service?SERVICE=WMS&REQUEST=GetCapabilities&VERSION=1.1.1', 'wms130': '/service?SERVICE=WMS&REQUEST=GetCapabilities&VERSION=1.3.0',
+        'wmts_kvp': '/service?SERVICE=WMTS&REQUEST=GetCapabilities&VERSION=1.0.0', 'wmts_rest': '/wmts/1.0.0/WMTSCapabilities.xml'}
 PROPS = ['OwnTreeOnly', 'RefusedCostsNothing', 'FetchedWhatWasMissing']
 VALUES = ['A', 'B', 'C']
 DEFAULT = 'A'
@@ -111,7 +113,7 @@ class World(object):
         if kind == 'down':
             cache['downscale_tiles'] = 1
             src['min_res'], src['max_res'] = 15, 7           # the source has the last level (10 m) only
-        conf = {'services': {'wms': {'srs': ['EPSG:3857']}, 'wmts': {'kvp': True, 'restful': False}, 'tms': {}},
+        conf = {'services': {'wms': {'srs': ['EPSG:3857']}, 'wmts': {'kvp': True, 'restful': True}, 'tms': {}},
                 'grids': {'g': {'srs': 'EPSG:3857', 'bbox': [0, 0, 640, 640], 'res': [40, 20, 10], 'tile_size': [TS, TS], 'origin': 'nw'}},
                 'sources': {'s': src}, 'caches': {'c': cache},
                 'layers': [{'name': 'l', 'title': 'l', 'sources': ['c'],
@@ -196,6 +198,30 @@ class World(object):
             ev['detail'] = detail
         return ev
 
+    def caps(self, doc):
+        import logging
+        logging.disable(logging.CRITICAL)
+        try:
+            r = self.app.get(CAPS[doc], status='*', expect_errors=True)
+        finally:
+            logging.disable(logging.NOTSET)
+        ev = {'op': 'caps', 'svc': doc, 'out': 'error', 'listed': [], 'dflt': '-', 'store': self.obs()}
+        if r.status_int != 200 or 'xml' not in (r.content_type or ''):
+            ev['detail'] = '%s %s' % (r.status_int, r.text[:100])
+            return ev
+        if doc.startswith('wms1'):
+            m = re.search(r'<Dimension\s+name="time"[^>]*\sdefault="([^"]*)"[^>]*>([^<]*)</Dimension>', r.text)
+            if m:
+                ev.update(out='ok', dflt=m.group(1), listed=sorted(v.strip() for v in m.group(2).split(',') if v.strip()))
+        else:
+            m = re.search(r'<Dimension>\s*<ows:Identifier>time</ows:Identifier>(.*?)</Dimension>', r.text, re.S)
+            if m:
+                d = re.search(r'<Default>([^<]*)</Default>', m.group(1))
+                ev.update(out='ok', dflt=d.group(1) if d else '-', listed=sorted(re.findall(r'<Value>([^<]*)</Value>', m.group(1))))
+        if ev['out'] != 'ok':
+            ev['detail'] = 'no Dimension element for "time"'
+        return ev
+
     def expire(self, t, k):
         p = self.location(t, k)
         os.utime(p, (T0 - 1000, T0 - 1000))
@@ -226,9 +252,9 @@ class World(object):
         return [(t, k) for t, k in self.obs() if not t.startswith('?') and os.path.getmtime(self.location(t, k)) > T0]
 
 
-def consts(kind, variant):
+def consts(kind, variant, caps_broken=()):
     tiles, meta, children, targets = universe(kind)
-    return dict(Tiles=set(tiles), Targets=set(targets), MetaOf={t: set(m) for t, m in meta.items()}, Children={t: set(c) for t, c in children.items()},
+    return dict(Tiles=set(tiles), Targets=set(targets), CapsBroken=set(caps_broken), MetaOf={t: set(m) for t, m in meta.items()}, Children={t: set(c) for t, c in children.items()},
                 Values=set(VALUES), Default=DEFAULT, Variant=variant)
 
 
@@ -255,6 +281,12 @@ def replay_behaviour(beh, kind):
             last = st['last']
             if str(last['op']) == 'req':
                 ev = w.request(str(last['svc']), str(last['t']), str(last['d']))
+            elif str(last['op']) == 'caps':
+                ev = w.caps(str(last['svc']))
+                if (ev['out'], sorted(ev['listed']), ev['dflt']) != (str(last['out']), sorted(str(v) for v in last['listed']), str(last['dflt'])):
+                    return 'diverged', 'step %d: capabilities %s: %s, values %s, default %s %s - the model says %s, %s, %s' % (
+                        n, last['svc'], ev['out'], ev['listed'], ev['dflt'], ev.get('detail', ''), last['out'], sorted(last['listed']), last['dflt']), ev
+                continue
             else:
                 ev = w.expire(str(last['t']), str(last['key']))
                 if sorted(map(tuple, ev['store'])) != sorted((str(p[0]), str(p[1])) for p in st['store']):
@@ -278,6 +310,9 @@ def random_history(rng, kind, nsteps):
                 t, k = rng.choice(fresh)
                 ev.append(w.expire(t, k))
                 continue
+            if rng.random() < 0.1:
+                ev.append(w.caps(rng.choice(sorted(CAPS))))
+                continue
             svc = rng.choice(['wms', 'wms', 'wmts', 'wmts', 'tms'])
             t = rng.choice(w.targets)
             if svc == 'tms':
@@ -296,7 +331,8 @@ def detect_variant():
     w = World('down')
     try:
         ev = w.request('wmts', 'p', 'B')
-        return ('repaired' if ev['out'] == 'B' else 'asfound'), ev
+        broken = [doc for doc in sorted(CAPS) if w.caps(doc)['out'] == 'error']
+        return ('repaired' if ev['out'] == 'B' else 'asfound'), ev, broken
     finally:
         w.close()
 
@@ -304,7 +340,16 @@ def detect_variant():
 def run(ctx):
     thorough = ctx.tier == 'thorough'
     tlc.sany(SPEC)
-    variant, ev = detect_variant()
+    variant, ev, broken = detect_variant()
+    for doc in broken:
+        w = World('meta')
+        try:
+            e = w.caps(doc)
+        finally:
+            w.close()
+        ctx.violation({'kind': 'capabilities-of-a-dimension-layer', 'document': doc},
+                      'layer with a dimension: the capabilities document %s (%s) is answered with %s instead of listing the dimension' % (
+                          doc, CAPS[doc], e.get('detail', 'an error')), {'document': doc, 'event': e})
     ctx.log('the tree implements Variant=%s (downscaled tile requested with TIME=B: the answer shows %s, upstream asked for %s)' % (
         variant, ev['out'], [f['key'] for f in ev['fetched']]))
     # the as-found variant fails in the model; its counterexample on the real application
@@ -323,11 +368,11 @@ def run(ctx):
                       'picture of "%s" - the tiles of the other level are looked up, fetched and stored without the dimension (upstream '
                       'asked without TIME, tiles outside the directory of the value)' % (
                           last['svc'], last['t'], last['key'], last['out']), {'behaviour': [a for a, _ in r.trace]})
-    invs = INVS if variant == 'repaired' else ['TypeOK']
+    invs = [i for i in INVS if i != 'CapsListTheDimension' or not broken] if variant == 'repaired' else ['TypeOK']
     props = PROPS if variant == 'repaired' else []
     for kind in KINDS:
         d = ctx.sub('mc-' + kind)
-        mp, cp = tlc.write_mc(d, 'Dims', 'MC_D', consts(kind, variant), invariants=invs, properties=props,
+        mp, cp = tlc.write_mc(d, 'Dims', 'MC_D', consts(kind, variant, broken), invariants=invs, properties=props,
                               constraint='Bound', extra_defs='Bound == TLCGet("level") <= %d' % (5 if thorough else 4))
         rr = tlc.run(mp, cp, d, timeout=1500, workers=5, coverage=True)
         if rr.violated:
@@ -337,13 +382,13 @@ def run(ctx):
             raise tlc.MachineryError('Dims.tla: %r %s' % (rr, rr.out[-800:]))
         else:
             ctx.add_tlc('Dims/%s' % kind, rr)
-            for a in ('Request', 'Expire'):
+            for a in ('Request', 'Expire', 'Caps'):
                 if rr.coverage.get(a, (0, 0))[1] == 0:
                     raise tlc.MachineryError('vacuity: %s never taken (%s)' % (a, kind))
     # (R) spec -> code
     for i, kind in enumerate(KINDS):
         d = ctx.sub('sim-' + kind)
-        mp, cp = tlc.write_mc(d, 'Dims', 'MC_S', consts(kind, variant))
+        mp, cp = tlc.write_mc(d, 'Dims', 'MC_S', consts(kind, variant, broken))
         prefix = os.path.join(d, 'beh')
         tlc.run(mp, cp, d, workers=1, simulate='file=%s,num=%d' % (prefix, 40 if thorough else 10), depth=14, seed=ctx.seed * 5 + i + 1,
                 coverage=False, timeout=300)
@@ -366,12 +411,12 @@ def run(ctx):
     for i, kind in enumerate(KINDS):
         traces = [random_history(ctx.rng, kind, 40 if thorough else 18) for _ in range(12 if thorough else 4)]
         for t in traces:
-            ctx.count(('hist', kind, json.dumps([[e.get('svc'), e['t'], e.get('d')] for e in t])))
+            ctx.count(('hist', kind, json.dumps([[e.get('svc'), e.get('t'), e.get('d')] for e in t])))
         d = ctx.sub('tr-' + kind)
         tf = os.path.join(d, 'batch.json')
         with open(tf, 'w') as f:
             json.dump(traces, f)
-        mp, cp = tlc.write_mc(d, 'Trace_Dims', 'MC_T', consts(kind, variant), spec='TraceSpec', invariants=invs, properties=props,
+        mp, cp = tlc.write_mc(d, 'Trace_Dims', 'MC_T', consts(kind, variant, broken), spec='TraceSpec', invariants=invs, properties=props,
                               post='TraceAccepted')
         rr = tlc.run(mp, cp, d, workers=1, coverage=False, env={'TRACE_FILE': tf}, timeout=900)
         ctx.cov['traces_validated_against_impl'] += len(traces)
